@@ -27,4 +27,5 @@ INVARIANT BetFixAnswers
 INVARIANT AsIsAlwaysFallsBack
 INVARIANT BetRoundTrip
 INVARIANT CrcSectorAccepted
+INVARIANT DistinctKeys
 CHECK_DEADLOCK FALSE
